@@ -353,7 +353,7 @@ impl Prop for C17 {
         "C17"
     }
     fn rule(&self) -> &'static str {
-        "cases = NetBIOS session messages over a handshaken TCP flow (one segment, both IP versions, random ports) carrying SMB1 Negotiate (1..8 dialects from known / unknown / random names, any order, duplicates, consistent ByteCount), SMB1 Session Setup (12-word layout, security blob 1..299 bytes, optional trailing strings), SMB2 Negotiate (1..8 dialect revisions from the supported set and random values, duplicates tracked separately, optional negotiate-context bytes), SMB2 Session Setup (blob 1..299 bytes); every correlation field random (PIDHigh/TID/PIDLow/UID/MID; MessageId/AsyncId/SessionId), request flags random with the reply bit clear. Negatives: reply flag set; SMB1 command over all byte values, SMB2 commands 0..18 and random. Conversations: 2..4 such messages (each request or negative, one SMB version per connection since the leading bytes select the SMB1 or SMB2 responder for the whole flow; e.g. Negotiate then Session Setup as real clients do) in successive segments of ONE connection, every message judged exactly like a single one. Security blobs as clients send them (raw NTLMSSP types 1/2/3, SPNEGO negTokenInit/negTokenResp wrappers, Kerberos-looking, random). Oracle: own decoders: NetBIOS length = rest, magic, command and correlation fields echoed, reply flag set, WordCount/StructureSize, DialectIndex < number offered / DialectRevision among those offered (no reply if none supported), ByteCount / SecurityBlobLength / SecurityBufferOffset+Length consistent with the bytes present. Non-trivial = every case; distinct by message hash."
+        "cases = NetBIOS session messages over a handshaken TCP flow (one segment, both IP versions, random ports) carrying SMB1 Negotiate (1..8 dialects from known / unknown / random names, any order, duplicates, consistent ByteCount), SMB1 Session Setup (12-word layout, security blob 1..299 bytes, optional trailing strings), SMB2 Negotiate (1..8 dialect revisions from the supported set and random values, duplicates tracked separately, optional negotiate-context bytes), SMB2 Session Setup (blob 1..299 bytes); every correlation field random (PIDHigh/TID/PIDLow/UID/MID; MessageId/AsyncId/SessionId), request flags random with the reply bit clear. Negatives: reply flag set; SMB1 command over all byte values, SMB2 commands 0..18 and random. Conversations: 2..4 such messages (each request or negative, one SMB version per connection since the leading bytes select the SMB1 or SMB2 responder for the whole flow; e.g. Negotiate then Session Setup as real clients do) in successive segments of ONE connection, every message judged exactly like a single one. Security blobs as clients send them (raw NTLMSSP types 1/2/3, SPNEGO negTokenInit/negTokenResp wrappers, Kerberos-looking, random). Oracle: own decoders: NetBIOS length = rest, magic, command and correlation fields echoed, reply flag set, WordCount/StructureSize, DialectIndex < number offered / DialectRevision among those offered (no reply if none supported), ByteCount / SecurityBlobLength / SecurityBufferOffset+Length consistent with the bytes present. Non-trivial = every case; distinct by message hash. Shadow traffic (vf/shadow.rs): three cases in ten process, before every frame of the case, a sibling of that frame whose result is discarded — the same frame again, or one tuple element (source / destination port, source / destination address, source MAC), one payload bit or the payload length changed; TCP conversations are shadowed whole on a sibling flow validated with its own cookie; sound by the statement of C08, cases whose own flows meet a shadow tuple are excluded and counted."
     }
     fn run(&self, ctx: &mut RunCtx) {
         let n = ctx.share(ctx.tier.n(1_500_000, 16_000_000));
